@@ -669,6 +669,26 @@ func (s *r3State) apiPath(p *core.Path, isSource func(*types.Var) bool) {
 			}
 		}
 	}
+	// R3d: a remembered (container-level) exit channel that this path read out of its field and
+	// then overwrote must have been forwarded to a start or stored back, unless it was shown nil
+	overwritten := map[*types.Var]int{}
+	for i, ev := range p.Events {
+		if ev.Kind == core.KAssign && !ev.FieldInit && ev.Var != nil && s.cf2[ev.Var.Origin()] {
+			overwritten[ev.Var.Origin()] = i
+		}
+	}
+	seenSrc := map[*flowSource]bool{}
+	for _, src := range allSources {
+		if seenSrc[src] || !s.cf2[src.Field] {
+			continue
+		}
+		seenSrc[src] = true
+		if w, ok := overwritten[src.Field]; ok && w > src.Idx {
+			construct := enclosingName(c, src.Ev) + "/remembered(" + core.FieldName(src.Field) + ")"
+			s.note("R3d", construct, src.Ev.Pos, !sunk[src],
+				"the exit channel remembered in "+core.FieldName(src.Field)+" is read and the field is then overwritten, but on this path the value read is neither handed to a start nor stored back (nor shown nil): a later routine no longer waits for the instance it stood for", p)
+		}
+	}
 	// R3d: detach without retention
 	for _, sw := range slotWrites {
 		ev := sw.ev
